@@ -1,6 +1,7 @@
 import Driver.L0
 import Driver.L1
 import Driver.L2
+import Driver.L3
 open Clap.Driver
 
 def dispatch (line : String) : String :=
@@ -14,6 +15,9 @@ def dispatch (line : String) : String :=
     | some r => r
     | none =>
     match handleL2 cmd args with
+    | some r => r
+    | none =>
+    match handleL3 cmd args with
     | some r => r
     | none => "bad-op"
 
